@@ -29,7 +29,7 @@ RULE = ("codec {none, gz, bz2, lz4, zst, zstd} x container {stream, avro, jsonfi
 CODECS = {"none": "", "gz": ".gz", "bz2": ".bz2", "lz4": ".lz4", "zst": ".zst", "zstd": ".zstd"}
 MAGIC = {"gz": b"\x1f\x8b", "bz2": b"BZh", "lz4": b"\x04\x22\x4d\x18", "zst": b"\x28\xb5\x2f\xfd", "zstd": b"\x28\xb5\x2f\xfd"}
 CONTAINERS = {"stream": ("", ".records"), "avro": ("avro://", ".avro"), "jsonfile": ("jsonfile://", ".json"), "csvfile": ("csvfile://", ".csv")}
-NAMINGS = ["path", "neutral", "fileio", "buffered", "bytesio", "readonly", "stdin", "bytesio-at-offset", "fileio-at-offset", "scheme+bytesio", "scheme+fileio", "scheme+stdin", "scheme-dash+stdin"]
+NAMINGS = ["path", "neutral", "fileio", "buffered", "bytesio", "readonly", "stdin", "bytesio-at-offset", "fileio-at-offset", "scheme+bytesio", "scheme+fileio", "scheme+stdin", "scheme-dash+stdin", "buffered-reread"]
 SEQS = ["empty", "one", "three", "many"]
 TIER = ["quick"]
 _n = [0]
@@ -205,6 +205,13 @@ def read_named(container, naming, path, scheme, raw):
             rd = RecordReader(fileobj=fh)
         elif naming == "bytesio":
             rd = RecordReader(fileobj=io.BytesIO(raw))
+        elif naming == "buffered-reread":
+            # the caller's own handle read once, rewound, and handed to a second reader: the second reading is judged
+            fh = open(path, "rb")
+            first = RecordReader(fileobj=fh)
+            drain(first)
+            fh.seek(0)
+            rd = RecordReader(fileobj=fh)
         elif naming == "scheme+bytesio":
             # the container is named by the URL scheme, the bytes come from a file object: the codec is still in the leading bytes
             rd = RecordReader(scheme or "stream://", fileobj=io.BytesIO(raw))
